@@ -5,7 +5,7 @@ from . import common
 
 NAME = "U-appcode"
 TOOL = "verus"
-PROPS = ["C14", "C13", "C04", "C18", "C16", "C03", "C02"]
+PROPS = ["C14", "C13", "C04", "C18", "C16", "C03", "C02", "C01", "C15"]
 RLIMIT = 100
 TRUSTED = ["verus 0.2026.09.13 + z3", "A-vstd (Vec push, for-loop over &Vec)", "A-fmt (R4)", "A-clone: #[derive(Clone)] on AsmLine is structural"]
 
@@ -105,7 +105,7 @@ def build(repo):
                 // concatenation is associative (extensional equality hint)
                 if *i is Label { assert(((*i)->Label_0@ + "inline"@) + dec(inline_counter as int) =~= (*i)->Label_0@ + suffix(inline_counter)); }
                 if *i is Instruction { assert(((*i)->Instruction_0.dasm_operand@ + "inline"@) + dec(inline_counter as int) =~= (*i)->Instruction_0.dasm_operand@ + suffix(inline_counter)); }
-                assert(renamed(*i, self.code@[before.len() as int], inline_counter)); //@ C14,C13,C04,C18,C16,C03,C02:append-line-renamed
+                assert(renamed(*i, self.code@[before.len() as int], inline_counter)); //@ C14,C13,C04,C18,C16,C03,C02,C01,C15:append-line-renamed
                 assert forall|k: int| 0 <= k < it.index@ implies renamed(code.code@[k], #[trigger] self.code@[old(self).code@.len() + k], inline_counter) by {
                     assert(self.code@[old(self).code@.len() + k] == before[old(self).code@.len() + k]);
                 }
